@@ -260,8 +260,22 @@ def run(repo, tier):
             rec[st.targets[0].id] = st.value
     n_rec = 0
     for n in ast.walk(f0):
-        if isinstance(n, ast.Call) and (call_name(n) or "").endswith("concatenate") and n.args and isinstance(n.args[0], ast.List):
-            names = [e.id for e in n.args[0].elts if isinstance(e, ast.Name) and e.id in rec]
+        if isinstance(n, ast.Call) and (call_name(n) or "").endswith("concatenate") and n.args and isinstance(n.args[0], (ast.List, ast.Name)):
+            if isinstance(n.args[0], ast.List):
+                elts = list(n.args[0].elts)
+            else:
+                # a list built up statement by statement: `pieces = [a]`, `pieces.append(b)` ... in source order
+                lname = n.args[0].id
+                built = []
+                for st in ast.walk(f0):
+                    if isinstance(st, ast.Assign) and len(st.targets) == 1 and isinstance(st.targets[0], ast.Name) and st.targets[0].id == lname and isinstance(st.value, ast.List):
+                        built.append((st.lineno, st.col_offset, list(st.value.elts)))
+                    elif isinstance(st, ast.Expr) and isinstance(st.value, ast.Call) and isinstance(st.value.func, ast.Attribute) and st.value.func.attr in ("append", "extend") \
+                            and isinstance(st.value.func.value, ast.Name) and st.value.func.value.id == lname and len(st.value.args) == 1:
+                        a0 = st.value.args[0]
+                        built.append((st.lineno, st.col_offset, [a0] if st.value.func.attr == "append" else (list(a0.elts) if isinstance(a0, ast.List) else [a0])))
+                elts = [e for _, _, es in sorted(built, key=lambda t: t[:2]) for e in es]
+            names = [e.id for e in elts if isinstance(e, ast.Name) and e.id in rec]
             if len(names) != 2:
                 continue
             n_rec += 1
